@@ -33,6 +33,7 @@ P = {
   technique="def-use dataflow on the accumulator + decision-table extraction over process_node"),
 "C03": dict(
   decided={
+    "C03.j": "the static walkers of rule kind / inheritance inference skip syntactic predicates (And/Not leave no result at run time): every use of a node's .root in them lies where the node is known not to be a predicate",
     "C03.a": "every comparison with a RULE_*/MULT_* constant has a rule-kind / multiplicity operand (kind discipline)",
     "C03.b": "inside the change-driven fixpoint of _determine_rule_types every derived fact is recomputed each pass",
     "C03.c": "recursion over user-shaped cyclic graphs (_tx_inh_by, rule references) carries a visited set covering the recursive argument",
